@@ -623,6 +623,7 @@ class Interp:
         if spec is None:
             raise Unsupported(f"loop #{k} of {qn} iterates a symbolic sequence and has no loop invariant")
         n = seq.n
+        self._cur_loop, self._cur_carried = st, None
         # 1. invariant holds on entry
         self._check_closed(spec, env, z3.IntVal(0), f"loop{k}/init", qn)
         branch = ctx.choose(2, "loop")
@@ -653,11 +654,34 @@ class Interp:
             self._install_closed(spec, env, n)
             self.exec_block(st.orelse, env)
 
+    def _carried(self, st, env):
+        """The loop-carried local: the unique name assigned in the loop body that is already bound before the loop.  Lets a
+        closed-form invariant talk about "the accumulator" without depending on what the code calls it ('@carried')."""
+        targets = {x.id for x in ast.walk(st.target) if isinstance(x, ast.Name)}
+        names = []
+        for b in st.body:
+            for x in ast.walk(b):
+                if isinstance(x, ast.Name) and isinstance(x.ctx, ast.Store) and x.id not in targets and x.id not in names and env.lookup_env(x.id) is not None:
+                    names.append(x.id)
+        if len(names) != 1:
+            raise Unsupported(f"loop invariant about '@carried': {len(names)} loop-carried locals {names}")
+        return names[0]
+
+    def _closed_items(self, spec, env, i):
+        out = {}
+        for name, v in spec.closed(self, env, i).items():
+            if name == "@carried":
+                if self._cur_carried is None:  # determined on loop entry, before the body binds its own temporaries
+                    self._cur_carried = self._carried(self._cur_loop, env)
+                name = self._cur_carried
+            out[name] = v
+        return out
+
     def _install_closed(self, spec, env, i):
         ctx = self.ctx
         for ax in spec.axioms(self, env, i):
             ctx.assume(ax)
-        for name, v in spec.closed(self, env, i).items():
+        for name, v in self._closed_items(spec, env, i).items():
             e = env.lookup_env(name) or env
             e.vars[name] = v
         for f in spec.facts(self, env, i):
@@ -671,7 +695,7 @@ class Interp:
         ctx = self.ctx
         for ax in spec.axioms(self, env, i):
             ctx.assume(ax)
-        for name, v in spec.closed(self, env, i).items():
+        for name, v in self._closed_items(spec, env, i).items():
             cur = self.load_name(name, env)
             ctx.prove(f"{label}/{name}", self.same_value(cur, v), kind="invariant")
         for j, f in enumerate(spec.facts(self, env, i)):
